@@ -344,9 +344,18 @@ package meta
 //@   ensures result != nil ==> fresh(result) && result.start == 0 && result.end == len(haystack) && sameslice(result.haystack, haystack)
 
 // a missing prefilter stays missing: anchors only wrap an existing one
+//@ uninterpreted spec func leadAnchorsOnly(re *syntax.Regexp) bool
+//@ trusted func onlyLeadingLineAnchors
+//@   ensures result == leadAnchorsOnly(re)
+// the line-anchor wrapper re-checks "candidate stands at a line start" and keeps the prefilter complete: that is the
+// whole pattern only if (?m)^ leads every alternative and no assertion occurs elsewhere (leadAnchorsOnly names the
+// AST predicate onlyLeadingLineAnchors; its recursion over the tree is not unfolded)
 //@ func adjustForAnchors
-//@   props C17
+//@   props C17 C16 C01
 //@   ensures pf == nil ==> result0 == nil
+//@   ghost wrapped = false
+//@   after call WrapLineAnchor: ghost wrapped = true
+//@   ensures wrapped ==> leadAnchorsOnly(re)
 
 // ---- C19: reverse-suffix searchers ----
 // the matchStartZero shortcut ("from the start of the line to the last suffix on it") is the match only for exactly
@@ -537,13 +546,30 @@ package meta
 
 // strategy invariants needed by the verified helpers: the DFA strategy has a DFA; the anchored-literal strategy has its
 // info and (ASSUMED, argument in DESIGN S.2/C19) alMatch over it is the reference
-//@ spec func stratOK(e *Engine) bool = (e.strategy == UseDFA ==> e.dfa != nil) && (e.strategy == UseAnchoredLiteral ==> alInfoOK(e.anchoredLiteralInfo) && (forall h []byte :: alMatch(h, e.anchoredLiteralInfo) == refFound(e, false, h, 0)))
+//@ spec func stratOK(e *Engine) bool = (e.strategy == UseDFA ==> e.dfa != nil) && (e.strategy == UseAnchoredLiteral ==> alInfoOK(e.anchoredLiteralInfo) && (forall h []byte :: alMatch(h, e.anchoredLiteralInfo) == refFound(e, false, h, 0))) && (e.reverseSuffixSearcher != nil ==> rsOK(e.reverseSuffixSearcher) && (forall h []byte :: rsRef(e.reverseSuffixSearcher, h) == refFound(e, false, h, 0)))
 //@ trusted func (*Engine).isMatchReverseAnchored
 //@   requires leafOK(e)
 //@   modifies @searchState
 //@   ensures result == refFound(e, e.longest, haystack, 0)
-//@ trusted func (*Engine).isMatchReverseSuffix
-//@   requires leafOK(e)
+// ---- reverse-suffix boolean search (C01), relative to ASSUMED links of the searcher (rsOK): every match ends with an
+// occurrence of the suffix literal at which the reverse automaton accepts (rsCand names one such occurrence), a
+// reverse hit means a match exists, the searcher's PikeVM decides the same pattern. Proved: the candidate loop tries
+// EVERY occurrence in order (it never resumes behind an untried one) and answers exactly rsRef.
+//@ uninterpreted spec func rsRef(s *ReverseSuffixSearcher, h []byte) bool
+//@ uninterpreted spec func rsCand(s *ReverseSuffixSearcher, h []byte) int
+//@ spec func rsOK(s *ReverseSuffixSearcher) bool = s != nil && s.reverseDFA != nil && s.reverseDFA.pikevm != nil && s.pikevm != nil && s.prefilter != nil && s.suffixLen >= 1 && (forall h []byte :: rsRef(s, h) ==> 0 <= rsCand(s, h) && pfOcc(s.prefilter, h, rsCand(s, h)) && revAcc(s.reverseDFA, h, ite(rsCand(s, h) + s.suffixLen > len(h), len(h), rsCand(s, h) + s.suffixLen))) && (forall h []byte, en int :: revAcc(s.reverseDFA, h, en) ==> rsRef(s, h)) && (forall h []byte :: pvFound(s.pikevm, h) == rsRef(s, h)) && (forall h []byte, i int :: pfOcc(s.prefilter, h, i) ==> 0 <= i && i < len(h))
+//@ func (*ReverseSuffixSearcher).IsMatch
+//@   props C01 C05
+//@   opt safety=off
+//@   requires rsOK(s) && len(haystack) <= 140737488355328
+//@   modifies @searchState
+//@   ensures result == rsRef(s, haystack)
+//@   loop 1: invariant 0 <= start && rsOK(s)
+//@   loop 1: invariant rsRef(s, haystack) ==> start <= rsCand(s, haystack)
+//@ func (*Engine).isMatchReverseSuffix
+//@   props C01
+//@   opt safety=off
+//@   requires leafOK(e) && stratOK(e)
 //@   modifies @searchState
 //@   ensures result == refFound(e, e.longest, haystack, 0)
 //@ trusted func (*Engine).isMatchReverseSuffixSet
